@@ -6,6 +6,11 @@ inside the fragment the partial theorems cover (DESIGN.md §7a): loop exits and
 same function or never caught at all, no captured variables, at most one
 effectful argument per call, `null`-typed expressions only as statements,
 global initialisers that cannot fail, integer `**` with small operands.
+
+Since the core models cover them (Hms/Core/Sem.lean `castVal`, `strMember`, `floatMember`, `listSort`, `goPow`) the
+generator also produces (`allow_ext`): `as` between int / float / bool, float `**` with the exponents 0, 1, 2, 3,
+float members (round, trunc, is_int, to_string), string members (to_upper, to_lower, replace, contains, starts_with,
+repeat with a small count, split), parse_int / parse_float / parse_bool of literals that parse, `sort` of int lists.
 """
 
 INT_POOL = [0, 1, 2, 3, 5, 7, 10, 42, 100, -1, -2, -7, 255, 2**31 - 1, 2**31, -(2**31), 2**53, 2**62,
@@ -36,7 +41,7 @@ class Fn:
 
 class Gen:
     def __init__(self, rng, max_depth=3, allow_throw=True, allow_float=True, allow_loops=True,
-                 allow_lambda=True, fault_rate=0.04, allow_trigger=False, allow_singletons=False):
+                 allow_lambda=True, fault_rate=0.04, allow_trigger=False, allow_singletons=False, allow_ext=True):
         self.r = rng
         self.max_depth = max_depth
         self.allow_throw = allow_throw
@@ -47,6 +52,7 @@ class Gen:
         self.allow_trigger = allow_trigger
         self.use_trigger = False
         self.allow_singletons = allow_singletons
+        self.allow_ext = allow_ext            # casts between scalars, float **, string / float members, sort
         self.singletons = {}                  # `$Name` -> type; readable everywhere, never assigned to directly (finding S1)
         self.host = None                      # `$Name` -> python value the host provides (None: the program has no singletons)
         self.fns = []
@@ -103,12 +109,94 @@ class Gen:
         right = self.expr(rt, scopes, d, pure or "[" in left or "." in left)
         return f"({left} {op} {right})"
 
+    def ext_expr(self, ty, scopes, d, pure):
+        """Casts between scalars and members of strings / floats (none of them faults or throws: the parsed
+        strings are literals that parse, `repeat` counts are small, the cast operands stay far inside int64).
+        None: nothing for this type."""
+        r = self.r
+        sa = lambda: self.atom(T_STR, scopes)
+        slit = lambda: '"' + r.choice(STR_POOL + [",", " ", "l", "ab"]) + '"'
+        if ty == T_INT:
+            k = r.randrange(5)
+            if k == 0:
+                self.features.add("cast:float->int")
+                return f"({self.expr(T_FLOAT, scopes, d, pure)} as int)"
+            if k == 1:
+                self.features.add("cast:bool->int")
+                return f"({self.expr(T_BOOL, scopes, d, pure)} as int)"
+            if k == 2:
+                m = r.choice(["round", "trunc"])
+                self.features.add("float." + m)
+                return f"({self.expr(T_FLOAT, scopes, d, pure)}).{m}()"
+            if k == 3:
+                self.features.add("str.parse_int")
+                return '"' + r.choice(["0", "7", "-12", "+5", "0042", "9223372036854775807", "-9223372036854775808"]) + '".parse_int()'
+            self.features.add("cast:int->int")
+            return f"({self.expr(T_INT, scopes, d, pure)} as int)"
+        if ty == T_BOOL:
+            k = r.randrange(6)
+            if k == 0:
+                self.features.add("cast:int->bool")
+                return f"({self.expr(T_INT, scopes, d, pure)} as bool)"
+            if k == 1:
+                self.features.add("cast:float->bool")
+                return f"({self.expr(T_FLOAT, scopes, d, pure)} as bool)"
+            if k == 2:
+                self.features.add("str.contains")
+                return f"{sa()}.contains({slit()})"
+            if k == 3:
+                self.features.add("str.starts_with")
+                return f"{sa()}.starts_with({slit()})"
+            if k == 4:
+                self.features.add("float.is_int")
+                return f"({self.expr(T_FLOAT, scopes, d, pure)}).is_int()"
+            self.features.add("str.parse_bool")
+            return '"' + r.choice(["true", "false", "1", "0", "T", "False"]) + '".parse_bool()'
+        if ty == T_STR:
+            k = r.randrange(5)
+            if k == 0:
+                m = r.choice(["to_upper", "to_lower"])
+                self.features.add("str." + m)
+                return f"({self.expr(T_STR, scopes, d, pure)}).{m}()"
+            if k == 1:
+                self.features.add("str.replace")
+                return f"{sa()}.replace({slit()}, {slit()})"
+            if k == 2:
+                self.features.add("float.to_string")
+                return f"({self.expr(T_FLOAT, scopes, d, pure)}).to_string()"
+            if k == 3:
+                self.features.add("str.repeat")
+                return f"{sa()}.repeat({r.choice([0, 1, 2, 3])})"
+            self.features.add("str.split.join")
+            return f"{sa()}.split({slit()}).join(\"/\")"
+        if ty == T_FLOAT and self.allow_float:
+            k = r.randrange(4)
+            if k == 0:
+                self.features.add("cast:int->float")
+                return f"(({self.expr(T_INT, scopes, d, pure)} % 1000) as float)"
+            if k == 1:
+                self.features.add("float**")
+                return f"({self.atom(T_FLOAT, scopes)} ** {r.choice(['2.0', '2.0', '0.0', '1.0', '3.0'])})"
+            if k == 2:
+                self.features.add("cast:bool->float")
+                return f"({self.expr(T_BOOL, scopes, d, pure)} as float)"
+            self.features.add("str.parse_float")
+            return '"' + r.choice(["0.5", "2", "-1.25", "10.0", "+3.125"]) + '".parse_float()'
+        if ty == T_LSTR:
+            self.features.add("str.split")
+            return f"{sa()}.split({slit()})"
+        return None
+
     def expr(self, ty, scopes, depth, pure=False):
         """Expression of type ty. pure=True: no calls to user functions, no faults, no effects."""
         r = self.r
         if depth <= 0:
             return self.atom(ty, scopes)
         d = depth - 1
+        if self.allow_ext and (self.allow_float or ty in (T_STR, T_LSTR)) and r.random() < 0.07:
+            e = self.ext_expr(ty, scopes, d, pure)
+            if e is not None:
+                return e
         c = r.random()
         if ty == T_INT:
             if c < 0.18:
@@ -367,13 +455,15 @@ class Gen:
             ls = self.vars_of(scopes, T_LINT)
             if ls:
                 l = r.choice(ls)
-                m = r.choice(["push", "push", "pop", "push_front", "pop_front", "insert", "remove"])
+                m = r.choice(["push", "push", "pop", "push_front", "pop_front", "insert", "remove"] + (["sort"] if self.allow_ext else []))
                 shared = l in scopes[0] or not any(l in sc for sc in scopes)   # a parameter (alias of the caller's list) or a global
                 if m in ("push", "push_front", "insert") and (ctx.get("loop_depth", 0) >= 2 or (ctx.get("in_fn") and shared)):
                     # growing a list inside nested loops over it blows up exponentially; a function that grows a list of its
                     # caller may be called from such loops
                     m = "pop"
                 self.features.add("list." + m)
+                if m == "sort":
+                    return [f"{l}.sort();"]
                 if m in ("push", "push_front"):
                     return [f"{l}.{m}({self.expr(T_INT, scopes, d)});"]
                 if m in ("pop", "pop_front"):
